@@ -65,6 +65,19 @@ def concrete(inp):
                 bad.append("mixed set (experiment %d of %r states Ea=%r, data on a line with E=%r): permeance at %r K is %r, nearest experiment (%r K) with %s energy gives %r"
                            % (which, temps, Es, E, Tq, float(got), tn, "its stated" if temps.index(tn) == which else "the regressed", want))
                 break
+    if inp.get("mixed_units") and n >= 2:
+        # the same physical data, each experiment stored in another unit
+        ulist = [Units.kg_m2_h_kPa, Units.SI, Units.GPU]
+        exps = [IdealExperiment(name="m", temperature=t, component=c1, permeance=pv.Permeance(P0 * math.exp(-E / RG * (1 / t - 1 / 323.15))).convert(ulist[k % 3], c1))
+                for k, t in enumerate(temps)]
+        mem = Membrane(name="m", ideal_experiments=IdealExperiments(experiments=exps))
+        got_E = mem.calculate_activation_energy(c1)
+        if not close(got_E, E, 1e-6, 1e-3):
+            bad.append("experiments on a line with E=%r stored in different units (%s): regressed activation energy %r" % (E, [u[:3] for u in ulist[:n]], float(got_E)))
+        want = P0 * math.exp(-E / RG * (1 / T - 1 / 323.15))
+        got = mem.get_permeance(T, c1).value
+        if not close(got, want, 1e-6):
+            bad.append("experiments stored in different units: permeance at %r K is %r, Arrhenius law of the experiments gives %r" % (T, float(got), want))
     for data in ("line", "scattered"):
         for stated in (False, True):
             if not stated and n < 2:
@@ -150,14 +163,15 @@ def _membrane(n, stated, units, line):
                 pk = real("P%d_%d" % (ci, j)).t
                 dom.append(pk > 0)
             Ps.append(pk)
-            # experiment permeance given in `units`; its kg value is pk
-            v = pk * factor(Units.kg_m2_h_kPa, c.molecular_weight) / factor(units, c.molecular_weight)
+            # experiment permeance given in `units` (or, for "mixed", in a different unit per experiment); its kg value is pk
+            u_j = [Units.kg_m2_h_kPa, Units.SI, Units.GPU][j % 3] if units == "mixed" else units
+            v = pk * factor(Units.kg_m2_h_kPa, c.molecular_weight) / factor(u_j, c.molecular_weight)
             if stated in ("mixed_first", "mixed_last"):
                 # one experiment states an energy Es (not the slope of the data), the others state none
                 ea = real("Es%d" % ci) if j == (0 if stated == "mixed_first" else n - 1) else None
             else:
                 ea = real("Ea%d_%d" % (ci, j)) if stated == "own" else E if stated else None
-            ex = IdealExperiment(name="m", temperature=Ts[j], component=c, permeance=build.perm(SReal(v), units), activation_energy=ea)
+            ex = IdealExperiment(name="m", temperature=Ts[j], component=c, permeance=build.perm(SReal(v), u_j), activation_energy=ea)
             exps.append(ex)
         info[ci] = dict(Ts=Ts, E=E, P0=P0, Tref=Tref, Ps=Ps, comp=c)
     # interleave the components' experiments (order must not matter)
@@ -173,7 +187,7 @@ def permeance(job, n, stated, units):
                "activation energies in [-60, 120] kJ/mol, permeances > 0, molar masses > 0", "LOG of a product with EXP factors is split (positive arguments)")
     T = real("T")
     tag = "C12/n%d/%s/%s" % (n, {None: "unstated", True: "stated", "own": "stated_each", "mixed_first": "mixed_first_stated", "mixed_last": "mixed_last_stated"}[stated],
-                            {"kg/(m2*h*kPa)": "kg"}.get(units, units))
+                            {"kg/(m2*h*kPa)": "kg", "mixed": "mixed_units"}.get(units, units))
     line = stated is None or stated in ("mixed_first", "mixed_last")
     if line and n < 2:
         return
@@ -183,7 +197,7 @@ def permeance(job, n, stated, units):
     # no exact ties
     dist = [z3.If(t.t - T.t >= 0, t.t - T.t, T.t - t.t) for t in i1["Ts"]]
     dom += [a != b for a, b in itertools.combinations(dist, 2)]
-    inputs = {"n": n, "T": T.t, "E": i1["E"].t, "P0": i1["P0"].t}
+    inputs = {"n": n, "T": T.t, "E": i1["E"].t, "P0": i1["P0"].t, "mixed_units": units == "mixed"}
     inputs.update({"T%d" % j: i1["Ts"][j].t for j in range(n)})
     fb = [{"n": n, "T": 341.0, "E": 35000.0, "P0": 0.02}, {"n": n, "T": 290.0, "E": -20000.0, "P0": 0.5}]
     fb += [dict(fb[0], T=tq, T0=t0, T1=t1, T2=t2) for tq in (331.0, 345.0, 352.0) for (t0, t1, t2) in ((343.15, 333.15, 353.15), (353.15, 333.15, 343.15), (333.15, 353.15, 343.15))] if n == 3 else []
@@ -293,5 +307,8 @@ def jobs(tier):
                 continue
             for units in ((Units.kg_m2_h_kPa,) if (tier == "quick" and n == 3) else (Units.kg_m2_h_kPa, Units.SI, Units.GPU)):
                 js.append(("perm_n%d_%s_%s" % (n, stated, units[:2]), "permeance", {"n": n, "stated": stated, "units": units}))
+    for n in (2, 3):
+        for stated in (None, True):
+            js.append(("perm_n%d_%s_mixed_units" % (n, stated), "permeance", {"n": n, "stated": stated, "units": "mixed"}))
     js.append(("derived", "derived", {}))
     return js
